@@ -181,6 +181,13 @@ def gen_plan(run_seed, tier="quick", profile="tiny", focus=None):
                       r.randint(1, 5))]})
     elif u < 0.93:
       ops.append({"op": "restart"})
+    elif u < 0.95:
+      # non-gating probe: asynchronous abort (Ctrl-C / signal timeout) at the
+      # k-th line event inside the next table-building call
+      ops.append({"op": "abort", "fn": r.choice(["BatchDL", "PointTable",
+                                                 "BatchDLOfDifferences",
+                                                 "PointSequence"]),
+                  "k": r.randint(0, 45)})
     elif fault_left:
       fault_left = 0
       ops.append({"op": "fault", "kind": "alloc_fail",
@@ -237,10 +244,55 @@ def _pt(m, d):
   return (None, None) if p is None else (p[0], p[1])
 
 
+class _Abort(BaseException):
+  """Asynchronous interruption injected at a line event."""
+
+
+class _LineAbort:
+  """sys.monitoring LINE events on one EcCurve method: raise at the k-th."""
+
+  TOOL = 4
+
+  def __init__(self):
+    import sys as _sys
+    self.mon = _sys.monitoring
+    self.code = None
+    self.left = 0
+    self.fired = 0
+    try:
+      self.mon.use_tool_id(self.TOOL, "dst-abort")
+    except ValueError:
+      pass
+    self.mon.register_callback(self.TOOL, self.mon.events.LINE, self._line)
+
+  def arm(self, fn, k):
+    from paranoid_crypto.lib import ec_util
+    self.disarm()
+    self.code = getattr(ec_util.EcCurve, fn).__code__
+    self.left = k
+    self.mon.set_local_events(self.TOOL, self.code, self.mon.events.LINE)
+
+  def disarm(self):
+    if self.code is not None:
+      self.mon.set_local_events(self.TOOL, self.code, 0)
+      self.code = None
+
+  def _line(self, code, line):
+    if code is not self.code:
+      return None
+    if self.left <= 0:
+      self.fired += 1
+      self.disarm()
+      raise _Abort("asynchronous abort at line %d" % line)
+    self.left -= 1
+    return None
+
+
 def _segment(plan, start):
   from dst import seams
   fault = seams.AllocFault()
   fault.install()
+  aborter = None
   minis = [mini_of(c) for c in plan["curves"]]
   libs = [_lib_curve(c) for c in plan["curves"]]
   events = []
@@ -262,6 +314,13 @@ def _segment(plan, start):
       continue
     if kind == "heal":
       fault.heal()
+      events.append(ev)
+      i += 1
+      continue
+    if kind == "abort":
+      if aborter is None:
+        aborter = _LineAbort()
+      aborter.arm(op["fn"], op["k"])
       events.append(ev)
       i += 1
       continue
@@ -298,12 +357,16 @@ def _segment(plan, start):
         ev["res"] = [[None if c is None else int(c) for c in p] for p in out]
       else:
         raise core.HarnessError("unknown op %r" % kind)
+    except _Abort as ex:
+      ev["aborted"] = str(ex)
     except Exception as ex:  # pylint: disable=broad-except
       ev["exc"] = "%s: %s" % (type(ex).__name__, str(ex)[:120])
     ev["fired"] = fault.fired - fired0
     ev["cached_after"] = int(lib._table_size)  # pylint: disable=protected-access
     events.append(ev)
     i += 1
+  if aborter is not None:
+    aborter.disarm()
   return {"events": events, "next": nxt}
 
 
@@ -344,11 +407,26 @@ def judge(plan, events, segs):
   def probe(k):
     st["probes"][k] = st["probes"].get(k, 0) + 1
 
+  after_abort = False
+  nviol = 0
   for ev in events:
+    # what follows an asynchronous abort is a robustness observation, never a
+    # violation (no property promises anything about it, DESIGN 3.5)
+    if after_abort:
+      for v in viol[nviol:]:
+        v["property"] = "ROBUSTNESS"
+        v["key"] = "after_abort:" + v["key"]
+    nviol = len(viol)
     op = plan["ops"][ev["i"]]
     kind = op["op"]
     st["ops"][kind] = st["ops"].get(kind, 0) + 1
-    if kind in ("restart", "fault", "heal"):
+    if kind == "restart":
+      after_abort = False
+    if kind in ("restart", "fault", "heal", "abort"):
+      continue
+    if "aborted" in ev:
+      after_abort = True
+      probe("async_abort_fired")
       continue
     i = ev["i"]
     m = minis[op["curve"]]
@@ -457,6 +535,10 @@ def judge(plan, events, segs):
         exp = [None, None] if exp is None else [int(exp[0]), int(exp[1])]
         if got != exp:
           probe("mulg_mismatch_not_judged_under_C10")
+  if after_abort:
+    for v in viol[nviol:]:
+      v["property"] = "ROBUSTNESS"
+      v["key"] = "after_abort:" + v["key"]
   st["states"] = sorted(st["states"], key=repr)
   return events, viol, st
 
